@@ -22,6 +22,8 @@ one descending iteration (gate `iter`). -/
 inductive PendingRead where
   | list (a b : Bytes) (reqRev hdr0 lim : Nat) (stage : Nat) (snap : Option Store)   -- stage 0: at get, 1: at iter
   | get (k : Bytes) (rev hdr0 : Nat)
+  /-- the scan has run (its answer is `line`); the compaction record is looked at once more: gate get -/
+  | recheck (reqRev : Nat) (line : String)
   deriving Repr
 
 /-- A compaction run as a stepped client (one compaction range, one partition): `setCompactRecord` (read
@@ -242,11 +244,17 @@ def stepBase (st : State) (toks : List String) : State × String :=
       -- the data comes from the scan's snapshot (tikv: taken at the start of the scan) — except that the floor
       -- record is read live
       let view : BState := { viewB st.g with committed := hdr0, store := snap.getD st.g.store }
-      let line := match doList st.g.cfg view a b reqRev lim with
-        | .ok res => s!"list {res.hdr} {if res.more then 1 else 0} {kvsStr res.kvs}"
-        | .error e => s!"list err {errStr e}"
-        | .panic => "list PANIC"
-      ({ st with reads := st.reads.filter (·.1 != id) }, s!"done {cid} {line}")
+      match doList st.g.cfg view a b reqRev lim with
+      | .ok res =>
+        let line := s!"list {res.hdr} {if res.more then 1 else 0} {kvsStr res.kvs}"
+        ({ st with reads := (id, PendingRead.recheck reqRev line) :: st.reads.filter (·.1 != id) }, s!"at {cid} get")
+      | .error e => ({ st with reads := st.reads.filter (·.1 != id) }, s!"done {cid} list err {errStr e}")
+      | .panic => ({ st with reads := st.reads.filter (·.1 != id) }, s!"done {cid} list PANIC")
+    | some (_, .recheck reqRev line) =>
+      -- a compaction accepted since the first look removes nothing this read needed only if the record still admits it
+      if belowFloor st.g.cfg st.g.store reqRev then
+        ({ st with reads := st.reads.filter (·.1 != id) }, s!"done {cid} list err belowfloor")
+      else ({ st with reads := st.reads.filter (·.1 != id) }, s!"done {cid} {line}")
     | some (_, .get k rev hdr0) =>
       let view : BState := { viewB st.g with committed := hdr0 }
       let (hdr, kv) := doGet st.g.cfg view k rev
